@@ -7,7 +7,7 @@
    A stream is ANY list of chunks; [dec], [unzip] are ANY functions (the cipher and zlib enter
    unconstrained); [hd] = a decryptor is installed; [p0] = the packet being filled. *)
 From Coq Require Import ZArith NArith List Bool.
-From FV Require Import Lib.NList Lib.BE Lib.Crc32 C01.Model C01.ProofsIO C02.Proofs C02.ProofsCrc.
+From FV Require Import Lib.NList Lib.BE Lib.Crc32 C02.Model C01.ProofsIO C01.Proofs C02.Proofs C02.ProofsCrc C02.ProofsConn.
 Import ListNotations.
 Open Scope N_scope.
 
@@ -133,6 +133,27 @@ Theorem c02_refcount_mismatch_v2 : forall dec unzip hd s p0 h b,
   is_err (r_out (read_packet_v2 dec unzip hd s p0)).
 Proof. exact refcount_mismatch_v2. Qed.
 Print Assumptions c02_refcount_mismatch_v2.
+
+(* "a decode error force-closes the connection instead of desynchronising the stream"
+   (qnet/tcp_conn.go readPump): for every byte stream that arrives on a connection and enough
+   iterations for its length, the reader pump ends by closing the connection with an error
+   (never panicking, never still reading); the frames it delivered are exactly those that decode,
+   in order, before that error; the error is the result of the very next read; the bytes behind
+   the bad frame are never interpreted.
+     conn_closes read fuel s  :=  let (ds, e, rest) := read_pump read fuel s in
+        fst (read_many read |ds| s) = map Ok ds /\ exists err, e = Closed err /\
+        r_out (read (snd (read_many read |ds| s))) = Err err /\ rest = what that read left *)
+Theorem c02_conn_closes_v1 : forall dec unzip hd fuel s,
+  lenN (concat s) < N.of_nat fuel * hs1 ->
+  conn_closes (fun s => read_packet_v1 dec unzip hd s packet0) fuel s.
+Proof. exact conn_closes_v1. Qed.
+Print Assumptions c02_conn_closes_v1.
+
+Theorem c02_conn_closes_v2 : forall dec unzip hd fuel s,
+  lenN (concat s) < N.of_nat fuel * hs2 ->
+  conn_closes (fun s => read_packet_v2 dec unzip hd s packet0) fuel s.
+Proof. exact conn_closes_v2. Qed.
+Print Assumptions c02_conn_closes_v2.
 
 (* ---------------------------------------------------------------------------------- *)
 (* non-vacuity: a frame the V1 decoder accepts (14-byte header + "hi", checksum computed by
